@@ -69,6 +69,7 @@ class Report:
         self.n_unlisted = 0
         self.unreproduced = []
         self.infra_errors = []
+        self.classes = {}           # (mnemonic, form, width, disc) -> [count, example, finding id]
 
     # ---- bookkeeping -----------------------------------------------------------------------------
     def time_left(self):
@@ -90,11 +91,18 @@ class Report:
         """A case failed its oracle.  attrs: generator-side attributes (dict of str), disc: iterable of
         discrepancy names, replay: self-contained dict for bin/check --replay."""
         disc = sorted(set(disc))
+        ck = (attrs.get("mnemonic", ""), attrs.get("form", ""), attrs.get("width", ""), attrs.get("class", ""),
+              ",".join(disc))
+        ent = self.classes.get(ck)
+        if ent is None:
+            ent = self.classes[ck] = [0, what, None]
+        ent[0] += 1
         for e in self.findings:
             if finding_matches(e, attrs, disc):
                 self.kf_hits[e["id"]] = self.kf_hits.get(e["id"], 0) + 1
                 if e["id"] not in self.kf_example:
                     self.kf_example[e["id"]] = {"attrs": attrs, "disc": disc, "what": what}
+                ent[2] = e["id"]
                 return e["id"]
         self.n_unlisted += 1
         key = json.dumps([attrs.get("class", ""), disc, attrs.get("mnemonic", ""), attrs.get("form", "")])
@@ -107,6 +115,10 @@ class Report:
     # ---- finishing -------------------------------------------------------------------------------
     def finish(self, replay_fn=None, max_report=25):
         """Replays unlisted violations (fresh process) and writes evidence.  Returns exit code."""
+        if os.environ.get("VERIF_SUMMARY"):
+            for ck in sorted(self.classes):
+                n, ex, fid = self.classes[ck]
+                print("## %-6s %-10s %-10s w=%-4s %-8s %-28s n=%-6d %s" % (fid or "-", ck[0], ck[1], ck[2], ck[3], ck[4], n, ex[:150]))
         viol_lines = []
         seen_classes = set()
         confirmed = 0
